@@ -17,7 +17,12 @@ from .oracles import lie_ref as L
 
 
 def _vals(t):
-    return (t.tensor() if isinstance(t, pp.LieTensor) else t).detach().clone()
+    """Values of a result / operand as a plain detached copy.  A tensor that cannot even be read (autograd refuses access to a view whose
+    base was modified behind its back) yields a NaN placeholder, so that the comparison it feeds reports the violation."""
+    try:
+        return (t.tensor() if isinstance(t, pp.LieTensor) else t).detach().clone()
+    except RuntimeError:
+        return torch.full((1,), float("nan"), dtype=torch.float64)
 
 
 def _fresh(kind, vals):
